@@ -15,7 +15,7 @@ LEVEL = "model_checking"
 RULE = (
     "all rooted labelled trees on n nodes (Pruefer sequence x root, edges directed parent->child) x all (n-1)! "
     "edge listings, each run through toposort_edges, PAFScorer.sorted_edge_inds and the real group_instances_sample (one animal, every edge matched: "
-    "the order in which the assigner receives the edges is observed and the animal must come back as one complete instance); a case is non-trivial when "
+    "the order in which the assigner receives the edges is observed and the animal must come back as one complete instance; and, through group_instances_batch, the same animal with each leaf in turn undetected must come back as one instance holding every detected part); a case is non-trivial when "
     "n>=3 and the listing is not already parent-first (so the function has to reorder); distinct = distinct (n, tree, listing, api)"
 )
 ASSUMPTIONS = [
@@ -144,7 +144,36 @@ def run_grouping(n, listing):
     if seen:
         idx = {tuple(e): i for i, e in enumerate(listing)}
         order = tuple(idx.get(e, -1) for e in seen[0])
-    return ("grouping", order, grouped, len(inst))
+    # batch level (group_instances_batch through the scorer): sample 0 fully detected, sample j with leaf j undetected
+    # (no peak for that node, no match for the edge into it); every detected part must end up in ONE instance
+    leaves = [v for v in range(n) if all(u != v for u, _ in listing)]
+    variants = [None] + [lf for lf in leaves if m >= 2]
+    pk, pv, pc, me, ms_, md, ml = [], [], [], [], [], [], []
+    for miss in variants:
+        nodes = [i for i in range(n) if i != miss]
+        edges_ = [k for k, (u, v) in enumerate(listing) if v != miss]
+        pk.append(torch.tensor([[3.0 + 7 * i, 5.0 + 3 * i] for i in nodes]))
+        pv.append(torch.ones(len(nodes)))
+        pc.append(torch.tensor(nodes, dtype=torch.int32))
+        me.append(torch.tensor(edges_, dtype=torch.int32))
+        ms_.append(torch.zeros(len(edges_), dtype=torch.int32))
+        md.append(torch.zeros(len(edges_), dtype=torch.int32))
+        ml.append(torch.ones(len(edges_)))
+    nt = torch.nested.nested_tensor
+    bad = None
+    try:
+        res = G.group_instances_batch(nt(pk), nt(pv), nt(pc), nt(me), nt(ms_), nt(md), nt(ml), n, sc.sorted_edge_inds, sc.edge_types, 0)
+        for b, miss in enumerate(variants):
+            pi = np.asarray(res[0][b])
+            rows = [r for r in pi if not np.isnan(r).all()]
+            want = [i for i in range(n) if i != miss]
+            if len(rows) != 1 or [i for i in range(n) if not np.isnan(rows[0][i]).any()] != want:
+                got = [[i for i in range(n) if not np.isnan(r[i]).any()] for r in rows]
+                bad = f"group_instances_batch, node {miss} undetected: detected parts {want} come back as instances holding {got}"
+                break
+    except Exception as e:
+        bad = f"group_instances_batch raised {type(e).__name__}: {e}"
+    return ("grouping", order, grouped if bad is None else bad, len(inst))
 
 
 def work(part, shard):
@@ -182,6 +211,8 @@ def work(part, shard):
                         err = check_order(list(used), listing, n)
                         if err:
                             err = f"order in which grouping consumes the edges {used}: {err}"
+                    if err is None and isinstance(grouped, str):
+                        err = grouped
                     if err is None and not grouped:
                         err = f"one animal with all {n} nodes and every edge matched comes back as {ninst} instance(s), not one complete instance"
                     if err:
@@ -225,6 +256,8 @@ def replay(case):
     if case["api"] == "grouping":
         _, used, grouped, ninst = order
         err = check_order(list(used), listing, case["n"]) if used is not None else None
+        if err is None and isinstance(grouped, str):
+            err = grouped
         if err is None and not grouped:
             err = f"{ninst} instance(s) instead of one complete instance"
         return {"order_used": used, "grouped_as_one": grouped, "error": err, "violates": err is not None}
